@@ -15,7 +15,7 @@ def isVote (r : Rpc) : Prop := ∃ t, r = .requestVoteResponse t
 inductive ElecEff (n m : Nat) (net : Envelope → Prop) (st st' : NodeState) (out : List (Nat × Rpc)) : Prop where
   | same : st'.term = st.term → st'.votedFor = st.votedFor → st'.role = st.role → st'.votes = st.votes →
       (∀ x ∈ out, ¬ isVote x.2) → ElecEff n m net st st' out
-  | demote : st'.term = st.term → st'.votedFor = st.votedFor → st'.role = .follower →
+  | demote : st'.term = st.term → st'.votedFor = st.votedFor → st'.role = .follower → st.role ≠ .leader →
       (∀ x ∈ out, ¬ isVote x.2) → ElecEff n m net st st' out
   | bump : st.term < st'.term → st'.votedFor = none → st'.role = .follower →
       (∀ x ∈ out, ¬ isVote x.2) → ElecEff n m net st st' out
@@ -126,7 +126,7 @@ theorem aux_handleMsg_eff (n m sender : Nat) (net : Envelope → Prop) (st st' :
     simp only [handleMsg] at h
     have key : ∀ st1 : NodeState, onAppendEntries st1 sender leader prev prevTerm entries leaderCommit = some (st', out) →
         st'.term = st1.term ∧ st'.votedFor = st1.votedFor ∧ st'.votes = st1.votes ∧
-        (st'.role = st1.role ∨ st'.role = .follower) ∧ (∀ x ∈ out, ¬ isVote x.2) := by
+        (st'.role = st1.role ∨ st'.role = .follower) ∧ (∀ x ∈ out, ¬ isVote x.2) ∧ st1.role ≠ .leader := by
       intro st1 hh
       have hacc : ∀ l, (aeAccept st1 l).role = st1.role ∨ (aeAccept st1 l).role = .follower := by
         intro l; unfold aeAccept
@@ -134,27 +134,29 @@ theorem aux_handleMsg_eff (n m sender : Nat) (net : Envelope → Prop) (st st' :
       unfold onAppendEntries at hh
       split at hh
       · cases hh
-      · split at hh
+      · next hnl =>
+        have hnl' : st1.role ≠ .leader := by simpa using hnl
+        split at hh
         · injection hh with hh; injection hh with e1 e2; subst e1; subst e2
-          exact ⟨rfl, rfl, rfl, hacc leader, by simp [isVote]⟩
+          exact ⟨rfl, rfl, rfl, hacc leader, by simp [isVote], hnl'⟩
         · split at hh
           · cases hh
           · injection hh with hh; injection hh with e1 e2; subst e1; subst e2
-            exact ⟨rfl, rfl, rfl, hacc leader, by simp [isVote]⟩
+            exact ⟨rfl, rfl, rfl, hacc leader, by simp [isVote], hnl'⟩
     rcases aux_observeTerm st term with ⟨h1, h2, h4⟩ | ⟨h1, h2, h4, h5, h6, h7, _⟩
     · by_cases hc : (observeTerm st term).2 = true
       · simp only [hc, if_true] at h
         rw [h1] at h
-        obtain ⟨k1, k2, k3, k4, k5⟩ := key st h
+        obtain ⟨k1, k2, k3, k4, k5, k6⟩ := key st h
         rcases k4 with k4 | k4
         · exact .same k1 k2 k4 k3 k5
-        · exact .demote k1 k2 k4 k5
+        · exact .demote k1 k2 k4 k6 k5
       · simp only [hc] at h
         simp at h
         obtain ⟨e1, e2⟩ := h; subst e2; rw [h1] at e1; subst e1
         exact .same rfl rfl rfl rfl (by simp [isVote])
     · simp only [h2, if_true] at h
-      obtain ⟨k1, k2, k3, k4, k5⟩ := key _ h
+      obtain ⟨k1, k2, k3, k4, k5, _⟩ := key _ h
       refine .bump (by omega) (by rw [k2, h5]) ?_ k5
       rcases k4 with k4 | k4
       · rw [k4, h6]
@@ -289,7 +291,7 @@ theorem aux_foot_of_eff (n m : Nat) (s : Sys) (hi : EInv n s) (hm : m < n) (st' 
     · intro hr; rw [h2]; exact hsv (by rw [← h3]; exact hr)
     · intro hr; rw [h4, h1]; exact hvb (by rw [← h3]; exact hr)
     · intro hr; left; exact ⟨by rw [← h3]; exact hr, h1⟩
-  | demote h1 h2 h3 h5 =>
+  | demote h1 h2 h3 _ h5 =>
     refine ⟨by omega, fun _ c hc => by rw [h2]; exact hc, fun c t hx => (novote h5 c t hx).elim, ?_, ?_, ?_⟩
     · intro hr; exact absurd h3 hr
     · intro hr; rw [h3] at hr; cases hr
